@@ -22,6 +22,7 @@ pub type PR = Poisonable<R>;
 pub type OW = OwnedLockCollection<Vec<R>>;
 
 pub struct Payload {
+	/// set at construction (or, for the shared-Vec shapes, once the address rank is known)
 	pub leaf: u32,
 	pub val: AtomicU64,
 }
@@ -587,6 +588,9 @@ coll_impl!(<'w> RetryingLockCollection<[OwnedLockCollection<[R; 0]>; 2]>, "Retry
 coll_impl!(<'w> BoxedLockCollection<(OwnedLockCollection<[R; 0]>, &'w R, OwnedLockCollection<[R; 0]>, &'w R)>, "Boxed<(Owned<[;0]>,&RwLock,Owned<[;0]>,&RwLock)>", rw);
 coll_impl!(<'w> RefLockCollection<'w, (OwnedLockCollection<[R; 0]>, &'w R, OwnedLockCollection<[R; 0]>, &'w R)>, "Ref<(Owned<[;0]>,&RwLock,Owned<[;0]>,&RwLock)>", rw);
 coll_impl!(<'w> RetryingLockCollection<(OwnedLockCollection<[R; 0]>, &'w R, OwnedLockCollection<[R; 0]>, &'w R)>, "Retrying<(Owned<[;0]>,&RwLock,Owned<[;0]>,&RwLock)>", rw);
+coll_impl!(<'w> BoxedLockCollection<&'w [Vec<R>; 2]>, "Boxed<&[Vec<RwLock>;2]> (new_ref)", rw);
+coll_impl!(<'w> RefLockCollection<'w, [Vec<R>; 2]>, "Ref<[Vec<RwLock>;2]> (new)", rw);
+coll_impl!(<'w> RetryingLockCollection<&'w [Vec<R>; 2]>, "Retrying<&[Vec<RwLock>;2]> (new_ref)", rw);
 // unchecked-at-runtime constructors over owning inputs
 coll_impl!(<'w> BoxedLockCollection<&'w OW>, "Boxed<&Owned> (new_ref)", rw);
 coll_impl!(<'w> RefLockCollection<'w, OW>, "Ref<Owned> (new)", rw);
